@@ -11,8 +11,11 @@ import (
 	"math/big"
 	"os"
 	"os/exec"
+	"runtime"
 	"sort"
 	"strings"
+	"sync"
+	"sync/atomic"
 	"testing"
 	"time"
 
@@ -21,6 +24,7 @@ import (
 	gtrie "github.com/ethereum/go-ethereum/trie"
 
 	"github.com/kardiachain/go-kardia/configs"
+	"github.com/kardiachain/go-kardia/kai/kaidb"
 	"github.com/kardiachain/go-kardia/kai/rawdb"
 	"github.com/kardiachain/go-kardia/kai/state"
 	"github.com/kardiachain/go-kardia/kai/state/cstate"
@@ -700,6 +704,9 @@ func runV(o *outT, r *rnd, step int, last *types.ValidatorSet, reported []*types
 		if len(ups) > 0 {
 			if err := nvs.UpdateWithChangeSet(ups); err != nil {
 				res = "v err "
+				if os.Getenv("C06_DEBUG") != "" {
+					fmt.Fprintln(os.Stderr, "DEBUG UpdateWithChangeSet:", err, valLine("rep", rep, false), valLine("ups", ups, false))
+				}
 			}
 		}
 		res += valsObs(nvs.Validators)
@@ -854,7 +861,7 @@ func runChild(path string) error {
 					res.Err = "PANIC " + fmt.Sprint(e)
 				}
 			}()
-			n, err := openNode(&spec, spec.Cfg, false)
+			n, err := openNode(&spec, spec.Cfg, false, nil)
 			if err != nil {
 				res.Err = err.Error()
 				return
@@ -979,8 +986,10 @@ func (cb *childBatch) run(o *outT, tag string) {
 	if seen != len(cb.specs) {
 		o.Fail(-1, "child-process", fmt.Sprintf("%d results for %d cases", seen, len(cb.specs)))
 	}
-	os.Remove(path)
-	os.Remove(path + ".out")
+	if os.Getenv("C06_KEEP") == "" {
+		os.Remove(path)
+		os.Remove(path + ".out")
+	}
 	cb.specs, cb.want = nil, map[int][]string{}
 }
 
@@ -1102,7 +1111,7 @@ func beginBlockInfo(n *node, blk *types.Block) stypes.LastCommitInfo {
 	return cstate.VerifBeginBlockInfo(n.bc.chainConfig, blk, n.store)
 }
 
-func runCase(o *outT, idx int, seed uint64, cb *childBatch) {
+func runCase(o *outT, idx int, seed uint64) (rspec *caseSpec, rwant []string) {
 	r := newRnd(seed).Fork(uint64(idx))
 	spec, plain, contracts := genSpec(r, idx, o)
 	nBlocks := 2 + r.Pick(3, 1)
@@ -1115,7 +1124,11 @@ func runCase(o *outT, idx int, seed uint64, cb *childBatch) {
 	o.Case(idx, fmt.Sprintf("CASE %d gal=%d vals=%d blocks=%d", idx, spec.Galaxias, len(spec.Vals), nBlocks))
 
 	// ---- nodes
-	R, err := openNode(spec, 0, true)
+	R, err := openNode(spec, 0, true, nil)
+	var genesisDB kaidb.Database
+	if err == nil {
+		genesisDB = R.genesisDB
+	}
 	if err != nil {
 		o.Fail(0, "harness", "genesis: "+err.Error())
 		return
@@ -1126,14 +1139,21 @@ func runCase(o *outT, idx int, seed uint64, cb *childBatch) {
 		reopen int // 0 never, 1 reopen same db before every block > 1, 2 reopen on a copy
 	}
 	var peers []*peer
-	cfgs := r.Perm(len(cacheConfigs) - 1)
+	cfgs := r.Perm(len(cacheConfigs) - 2)
 	np := 3
 	if long {
 		np = 2
 	}
 	for i := 0; i < np; i++ {
 		ci := 1 + cfgs[i]
-		n, err := openNode(spec, ci, false)
+		if i == 0 && r.Chance(1, 8) {
+			ci = len(cacheConfigs) - 1
+		}
+		var from kaidb.Database
+		if i > 0 {
+			from = genesisDB // peers[0] executes the genesis itself (cross-check), the others start on a copy
+		}
+		n, err := openNode(spec, ci, false, from)
 		if err != nil {
 			o.Fail(0, "harness", "genesis: "+err.Error())
 			return
@@ -1147,7 +1167,7 @@ func runCase(o *outT, idx int, seed uint64, cb *childBatch) {
 	}
 	// a second node in the reference configuration that is re-opened: cold caches only
 	if !long {
-		n, err := openNode(spec, 0, false)
+		n, err := openNode(spec, 0, false, genesisDB)
 		if err == nil {
 			peers = append(peers, &peer{n: n, reopen: 1 + r.Intn(2)})
 		}
@@ -1175,7 +1195,7 @@ func runCase(o *outT, idx int, seed uint64, cb *childBatch) {
 		cg: &codeGen{r: r, targets: targets}}
 
 	childSpec := *spec
-	childSpec.Cfg = r.Intn(len(cacheConfigs))
+	childSpec.Cfg = r.Intn(len(cacheConfigs) - 1)
 	childSpec.Reopen = r.Pick(3, 1, 1)
 	var want []string
 	var lastCommit *types.Commit = types.NewCommit(0, 0, types.BlockID{}, nil)
@@ -1386,12 +1406,15 @@ func runCase(o *outT, idx int, seed uint64, cb *childBatch) {
 
 		// ---- replica (cold, no write) == real (warm, committed)
 		newRoot := R.st.AppHash
-		info := rawdb.ReadBlockInfo(R.db, blk.Hash(), h, R.bc.chainConfig)
+		info := readInfo(R, blk)
 		if repInfo != nil && info != nil {
 			if repRoot != newRoot {
 				o.Fail(step, "rerun-differs", fmt.Sprintf("root of the first run %x, of the second %x", repRoot, newRoot))
 			}
 			a, b := receiptsStr(repInfo), receiptsStr(info)
+			if api := rawdb.ReadBlockInfo(R.db, blk.Hash(), h, R.bc.chainConfig); api == nil {
+				o.Count("exec:ReadBlockInfo-nil")
+			}
 			if a != b {
 				o.Fail(step, "rerun-differs", "receipts: "+diffObs(a, b))
 			}
@@ -1416,7 +1439,9 @@ func runCase(o *outT, idx int, seed uint64, cb *childBatch) {
 			}
 			emitU(o, r, h, func(a common.Address) acctDump { return preCache[a] }, func(a common.Address) acctDump { return postCache[a] }, pend)
 		}
-		emitR(o, h, blk.Transactions(), info)
+		if repInfo != nil {
+			emitR(o, h, blk.Transactions(), repInfo)
+		}
 
 		// ---- content-only root
 		if !long || h%32 == 0 {
@@ -1436,10 +1461,8 @@ func runCase(o *outT, idx int, seed uint64, cb *childBatch) {
 		p.n.close()
 	}
 
-	// ---- the same chain in a fresh process
+	// ---- the same chain in a fresh process (run by the caller, in batches)
 	cs := childSpec
-	cb.specs = append(cb.specs, &cs)
-	cb.want[idx] = want
 	o.Count(fmt.Sprintf("child:cfg=%s/reopen=%d", cacheConfigs[cs.Cfg].name, cs.Reopen))
 
 	// ---- validator-set update order freedom on synthetic sets
@@ -1447,6 +1470,7 @@ func runCase(o *outT, idx int, seed uint64, cb *childBatch) {
 	for k := 0; k < nV; k++ {
 		genV(o, r, 1000+k)
 	}
+	return &cs, want
 }
 
 func receiptsStr(info *types.BlockInfo) string {
@@ -1457,7 +1481,7 @@ func receiptsStr(info *types.BlockInfo) string {
 	}
 	fmt.Fprintf(&sb, "gas=%d rew=%s bloom=%s ", info.GasUsed, rew, sha8(string(info.Bloom[:])))
 	for _, rc := range info.Receipts {
-		fmt.Fprintf(&sb, "%d:%d:%d:%d:%s:%x:%x ", rc.Status, rc.GasUsed, rc.CumulativeGasUsed, len(rc.Logs), sha8(string(rc.Bloom[:])), rc.TxHash[:4], rc.ContractAddress[:4])
+		fmt.Fprintf(&sb, "%d:%d:%d:%s ", rc.Status, rc.CumulativeGasUsed, len(rc.Logs), sha8(string(rc.Bloom[:])))
 	}
 	return sb.String()
 }
@@ -1485,25 +1509,88 @@ func TestVerifC06(t *testing.T) {
 	}
 	o := openOut(*c06Dir)
 	o.Rule = "C06: U — digest of the content of the flushed accounts after applying the pending objects in the enumeration order of Go's maps and in a permuted order; R — gas used, cumulative gas, receipt count, bloom bits of the block and of every receipt from the per-transaction results; V — validator set after calculateValidatorSetUpdates + UpdateWithChangeSet; B — verdict class of validateBlock.  Direct oracles: identical observables (app hash, stored receipts, bloom, gas, reward, block hash, validator sets with priorities, read-back) in every cache configuration, after re-opening, and in a fresh process; proposer's block valid on every node; content-only root; order-free validator updates"
-	cb := &childBatch{want: map[int][]string{}}
+	type result struct {
+		o    *outT
+		buf  *caseBuf
+		spec *caseSpec
+		want []string
+	}
+	var idxs []int
 	for i := 0; i < *c06N; i++ {
-		if *c06Only >= 0 && *c06Only != i {
-			continue
-		}
-		func() {
-			defer func() {
-				if e := recover(); e != nil {
-					o.curCase = i
-					o.Fail(-1, "panic", strings.ReplaceAll(fmt.Sprint(e), "\n", " "))
-				}
-			}()
-			runCase(o, i, *c06Seed, cb)
-		}()
-		if len(cb.specs) >= 24 {
-			cb.run(o, fmt.Sprint(i))
+		if *c06Only < 0 || *c06Only == i {
+			idxs = append(idxs, i)
 		}
 	}
-	cb.run(o, "last")
+	results := make([]*result, len(idxs))
+	workers := runtime.NumCPU() / 2
+	if *c06Tier == "thorough" {
+		workers = 2 // the shards already run side by side
+	}
+	if workers < 1 {
+		workers = 1
+	}
+	var wg sync.WaitGroup
+	next := int32(-1)
+	for w := 0; w < workers; w++ {
+		wg.Add(1)
+		go func() {
+			defer wg.Done()
+			for {
+				k := int(atomic.AddInt32(&next, 1))
+				if k >= len(idxs) {
+					return
+				}
+				i := idxs[k]
+				co, buf := newCaseOut()
+				res := &result{o: co, buf: buf}
+				func() {
+					defer func() {
+						if e := recover(); e != nil {
+							co.curCase = i
+							co.Fail(-1, "panic", strings.ReplaceAll(fmt.Sprint(e), "\n", " "))
+						}
+					}()
+					res.spec, res.want = runCase(co, i, *c06Seed)
+				}()
+				results[k] = res
+			}
+		}()
+	}
+	wg.Wait()
+	// the same chains in fresh processes, a batch of cases per process, batches side by side
+	var batches []*childBatch
+	cb := &childBatch{want: map[int][]string{}}
+	for _, res := range results {
+		o.merge(res.o, res.buf)
+		if res.spec != nil {
+			cb.specs = append(cb.specs, res.spec)
+			cb.want[res.spec.Idx] = res.want
+			if len(cb.specs) >= 16 {
+				batches = append(batches, cb)
+				cb = &childBatch{want: map[int][]string{}}
+			}
+		}
+	}
+	if len(cb.specs) > 0 {
+		batches = append(batches, cb)
+	}
+	bouts := make([]*outT, len(batches))
+	bbufs := make([]*caseBuf, len(batches))
+	sem := make(chan struct{}, workers)
+	for bi, b := range batches {
+		bouts[bi], bbufs[bi] = newCaseOut()
+		wg.Add(1)
+		sem <- struct{}{}
+		go func(bi int, b *childBatch) {
+			defer wg.Done()
+			defer func() { <-sem }()
+			b.run(bouts[bi], fmt.Sprint(bi))
+		}(bi, b)
+	}
+	wg.Wait()
+	for bi := range batches {
+		o.merge(bouts[bi], bbufs[bi])
+	}
 	o.Close()
 }
 
